@@ -185,6 +185,19 @@ func (e *Engine) fnInfo(fn *ssa.Function) *fnInfoT {
 	return fi
 }
 
+// SetRedirects installs the union of the given redirect tables (and forgets cached decisions).
+func (e *Engine) SetRedirects(tables ...map[string]string) {
+	e.infoMu.Lock()
+	defer e.infoMu.Unlock()
+	e.Redirects = map[string]string{}
+	for _, t := range tables {
+		for k, v := range t {
+			e.Redirects[k] = v
+		}
+	}
+	e.info = make(map[*ssa.Function]*fnInfoT)
+}
+
 func (e *Engine) push(p []Decision) {
 	e.workMu.Lock()
 	e.work = append(e.work, p)
